@@ -11,7 +11,7 @@ import (
 func init() {
 	register(PropInfo{
 		ID: "C02",
-		Explanation: "All-paths decision of the structural clauses of C02 (DESIGN.md section 4, C02): (R1) the channel whose send guards every sequence launch and the Limited pool are both sized by the head block's Concurrency field; (R2) acquire/release pairing: every launch is preceded in its loop iteration by a send on that channel, the launched literal receives from it exactly once on every exit, and there is no other send/receive; (R3) the exit of ExecuteSequences that lets the block proceed, and fixBlock, join their group before returning, so sequences of two blocks never overlap; (R4) Block.Defaults floors Concurrency at 1. Decides these necessary conditions, not the runtime count.",
+		Explanation: "All-paths decision of the structural clauses of C02 (DESIGN.md section 4, C02): (R1) the channel whose send guards every sequence launch and the Limited pool are both sized by the head block's Concurrency field; (R2) acquire/release pairing: every launch is preceded in its loop iteration by a send on that channel, the launched literal receives from it exactly once on every exit, and there is no other send/receive; (R3) the exit of ExecuteSequences that lets the block proceed, and fixBlock, join their group before returning, so sequences of two blocks never overlap; (R4) Block.Defaults floors Concurrency at 1; (R5) each plan is handed to exactly one state machine (runPlan callers, recover loop, aged-out plans removed from the resume list). Decides these necessary conditions, not the runtime count.",
 		NotDecided:  []string{"the bound as a runtime count over schedules", "behaviour with several plans (the limiter is a local of one state invocation, hence per plan by construction)"},
 		Assumptions: []string{"a buffered channel of capacity n admits at most n un-received sends", "worker.Group.Wait joins every Group.Go"},
 		Rules:       rulesC02,
@@ -308,7 +308,15 @@ func rulesC02(r *Run) {
 	ruleJoinFiltered(r, "R3", smKey("ExecuteSequences"), func(next string) bool { return next == "BlockPostChecks" }, "exit to BlockPostChecks")
 	ruleJoinJ1(r, "R3", smKey("fixBlock"))
 	r.CallersWithin("R3", smKey("execSeq"), smKey("ExecuteSequences"), smKey("fixBlock"))
-	r.Expect("R3", 4)
+	ruleFixBlockLaunch(r, "R3")
+	r.Expect("R3", 5)
+
+	// ---- R5: one state machine per plan (a plan run twice doubles every bound)
+	r.Kind("R5", "K4")
+	r.CallersWithin("R5", execKey("Plans.runPlan"), execKey("Plans.Start"), execKey("Plans.recover"))
+	ruleRecoverRunsPlans(r, "R5")
+	ruleFilterCompaction(r, "R5")
+	r.Expect("R5", 5)
 
 	// ---- R4: Defaults floors Concurrency
 	r.Kind("R4", "K5")
